@@ -55,15 +55,21 @@ type checkpoint struct {
 }
 
 func (s *checkpoint) Save() {
-	offsets, dirtyOffsets, anyDirtyOffset := s.stream.GetOffsets()
+	s.saveLock.Lock()
+	defer s.saveLock.Unlock()
+
+	_, dirtyOffsets, anyDirtyOffset := s.stream.GetOffsets()
 
 	if !anyDirtyOffset {
 		logger.Log.Trace("no need to save checkpoint")
 		return
 	}
 
-	s.saveLock.Lock()
-	defer s.saveLock.Unlock()
+	// Take the dirty marks before dumping the offsets: a mark made from here on
+	// lands in the fresh set and is picked up by the next save instead of being
+	// wiped after this one.
+	s.stream.UnmarkDirtyOffsets()
+	offsets, _, _ := s.stream.GetOffsets()
 
 	checkpointDump := map[uint16]*models.CheckpointDocument{}
 
@@ -106,9 +112,9 @@ func (s *checkpoint) Save() {
 
 	if err == nil {
 		logger.Log.Trace("saved checkpoint")
-		s.stream.UnmarkDirtyOffsets()
 	} else {
 		logger.Log.Error("error while saving checkpoint document: %v", err)
+		s.stream.MarkDirtyOffsets(dirtyOffsetsDump)
 	}
 }
 
